@@ -369,8 +369,20 @@ class SymStr:
         return SymStr([f(i) if isinstance(i, str) else i for i in self.items])._norm()
 
     def replace(self, old, new, count=-1):
-        s = concretise(self)
-        return s.replace(old, new, count)
+        nd = _items(old)
+        if not nd:
+            raise core.Unsupported("replace of the empty string")
+        out = []
+        i, n, m, done = 0, len(self.items), len(nd), 0
+        while i < n:
+            if i + m <= n and (count < 0 or done < count) and self._match_at(i, nd):
+                out.extend(_items(new))
+                i += m
+                done += 1
+            else:
+                out.append(self.items[i])
+                i += 1
+        return SymStr(out)._norm()
 
     def isdigit(self):
         return bool(And(*[_item_in(i, "0123456789") for i in self.items])) and len(self.items) > 0
